@@ -72,6 +72,9 @@ class Aff:
                 for x in s:
                     if isinstance(x, tuple):
                         walk(x)
+                    elif isinstance(x, Aff):
+                        for k2 in x.t:
+                            walk(k2)
         for k in self.t:
             walk(k)
         return out
@@ -166,6 +169,9 @@ class Sym:
                     return v.fields[i], None
                 return Aff.sym(('undef',)), None
             s = v.single()
+            if isinstance(s, tuple) and s[0] == 'try' and str(variant) == 'Continue' and proj['i'] == 0:
+                loc = ('f', s[1], s[2], '0')
+                return p.store.get(loc, Aff.sym(loc)), None
             loc = ('f', s if s is not None else ('expr', repr(v)), str(variant) if variant is not None else None, proj.get('name', str(proj['i'])))
             if loc in p.store:
                 return p.store[loc], None
@@ -279,6 +285,9 @@ class Sym:
             a = args[0]
             s = a.single() if isinstance(a, Aff) else None
             return Aff.sym(('len', s if s is not None else ('expr', repr(a))))
+        if c is not None and c.path == 'std::ops::Try::branch' and len(args) == 1 and isinstance(args[0], Aff) and args[0].single() is not None:
+            # `x?`: the Continue payload is the Some / Ok payload of x
+            return Aff.sym(('try', args[0].single(), 'Ok' if 'Result' in (c.resolved or '') else 'Some'))
         if c is not None and is_buffer_call(self.prog, c):
             # the reader buffer: one symbol per buffer content (bumped by every call that alters the buffer)
             return Aff.sym(('buffer', p.env.get('#buf', 0)))
@@ -424,7 +433,7 @@ def slice_range(prog, body, self_sym):
     init = Path()
     init.env[1] = Aff.sym(self_sym)
     out = []
-    for p in Sym(prog, body).run(0, init=init):
+    for p in Sym(prog, body, inline=True).run(0, init=init):
         for (_, t, args) in p.effects:
             if t.callee and t.callee.is_('std::ops::Index::index') and len(args) == 2 and isinstance(args[1], Agg) and len(args[1].fields) == 2:
                 out.append((args[1].fields[0], args[1].fields[1]))
